@@ -836,7 +836,12 @@ impl TcpSession {
                 self.connection_attempt = 0;
                 self.set_back_connected(BackendConnectionStatus::Connected);
             }
-        } else if back_connected == BackendConnectionStatus::NotConnected {
+        } else if back_connected == BackendConnectionStatus::NotConnected
+            && !matches!(self.state, TcpStateMachine::ExpectProxyProtocol(_))
+        {
+            // The expect state owns no backend socket: the backend connection
+            // is opened once the header has been parsed and the session has
+            // been upgraded to a pipe (`upgrade_expect` re-enters `ready`).
             let connection_result = self.connect_to_backend(session.clone());
             if let Err(err) = &connection_result {
                 match err {
